@@ -3,7 +3,7 @@
     and Proofs/Refresh.v.  The parser theorems hold for every checksum
     function [crc] (hash/crc32 in the code). *)
 From Coq Require Import NArith List.
-From AGH Require Import Base.Run Model.RuleListParser Proofs.RuleListParser.
+From AGH Require Import Base.Run Model.RuleListParser Model.Refresh Proofs.RuleListParser Proofs.Refresh.
 Import ListNotations.
 Local Open Scope N_scope.
 
@@ -44,3 +44,69 @@ Example C15_premises_satisfiable :
   e = None /\ output st = Examples.stored /\ p_count st = 3 /\ p_title st = [84] /\
   output st <> Examples.text.
 Proof. exact parse_example. Qed.
+
+(** ** Refresh *)
+
+(** The failures: no reader at all (connection error, status other than 200,
+    unreadable or unsafe local file), or content on which the parser returns
+    an error.  A body that ends in a read error is one, wherever it is cut:
+    before the first byte, in the middle of a line, at a line boundary. *)
+Theorem C15_cut_body_fails : forall crc d, fails crc (OBody d true).
+Proof. exact cut_body_fails. Qed.
+Print Assumptions C15_cut_body_fails.
+
+(** Any sequence of refreshes (block and/or allow lists, forced or scheduled,
+    any lists due) in which every list's source fails leaves the whole state
+    as it was: every file, every rule count and checksum, and the engine,
+    i.e. the rules in force. *)
+Theorem C15_failed_refresh_is_noop : forall crc ops st,
+  Forall (fun o => forall l, In l (r_block st ++ r_allow st) -> fails crc (o_oc o (f_id l))) ops ->
+  run_ops crc ops st = st.
+Proof. exact failed_refreshes_noop. Qed.
+Print Assumptions C15_failed_refresh_is_noop.
+
+(** In a refresh where other lists may succeed: the list whose source fails
+    keeps its file and its entry (rule count, checksum) unchanged. *)
+Theorem C15_failed_list_is_noop : forall crc i b a force due oc st,
+  fails crc (oc i) ->
+  let st' := refresh crc b a force due oc st in
+  fget i (r_files st') = fget i (r_files st) /\
+  (forall k l, nth_error (r_block st) k = Some l -> f_id l = i -> nth_error (r_block st') k = Some l) /\
+  (forall k l, nth_error (r_allow st) k = Some l -> f_id l = i -> nth_error (r_allow st') k = Some l).
+Proof. exact refresh_failed_list_noop. Qed.
+Print Assumptions C15_failed_list_is_noop.
+
+(** Content whose checksum equals the recorded one is not written and not
+    reported as an update. *)
+Theorem C15_same_checksum_not_written : forall crc l d re st fs,
+  parse crc d re = (st, None) -> p_sum st = f_sum l ->
+  update_one crc l (OBody d re) fs =
+    ({| u_id := f_id l; u_updated := false; u_err := false; u_count := 0; u_sum := f_sum l |}, fs).
+Proof. exact update_one_same_checksum. Qed.
+Print Assumptions C15_same_checksum_not_written.
+
+(** The file changes only on success with a new checksum, and then it holds a
+    normal form whose re-parse reproduces it with the recorded count and
+    checksum. *)
+Theorem C15_written_is_normal_form : forall crc l o fs,
+  let '(u, fs') := update_one crc l o fs in
+  (u_updated u = false /\ fs' = fs) \/
+  (exists d re st, o = OBody d re /\ parse crc d re = (st, None) /\ p_sum st <> f_sum l /\
+     u_updated u = true /\ u_err u = false /\ u_count u = p_count st /\ u_sum u = p_sum st /\
+     fs' = fset (f_id l) (output st) fs /\
+     exists st', parse crc (output st) false = (st', None) /\ output st' = output st /\
+                 p_count st' = p_count st /\ p_sum st' = p_sum st).
+Proof. exact update_one_cases. Qed.
+Print Assumptions C15_written_is_normal_form.
+
+(** Non-vacuity: a successful refresh of a block and an allow list, then one
+    where an HTML page and a connection error fail both: state unchanged. *)
+Example C15_refresh_premises_satisfiable :
+  fget 1 (r_files RExamples.st1) = Some RExamples.good /\
+  map f_count (r_block RExamples.st1) = [1] /\
+  verdict (r_engine RExamples.st1) [112;49] = 2 /\
+  fails crc32_update (OBody RExamples.html false) /\
+  fails crc32_update (OBody (firstn 3 RExamples.good) true) /\
+  refresh crc32_update true true true RExamples.all
+    (fun i => if i =? 1 then OBody RExamples.html false else OOpenErr) RExamples.st1 = RExamples.st1.
+Proof. exact refresh_example. Qed.
